@@ -62,6 +62,7 @@ package boltz
 //@   ensures[other-entries-kept] forallStr(k, k != old(uxNew(index, ctx)) ==> sel(bktHas[old(uxB2(index, ctx))], k) == sel(old(bktHas[uxB2(index, ctx)]), k))
 
 // ---- set index ----
+//@ define sxTree(base) = forallStr(k, sel(bktSub[base], k) != base)
 // GetOrCreateBucket: the nested bucket under name - the existing one, or a fresh empty one; nothing else changes
 //@ func (*TypedBucket).GetOrCreateBucket
 //@   props C03
@@ -72,11 +73,12 @@ package boltz
 //@   ensures[created-empty] bucket.Err == nil && !old(bktHas[bucket.Bucket][name]) && result.Err == nil ==> result != nil && result.Bucket != nil && fresh(result.Bucket) && bktHas[bucket.Bucket] == sto(old(bktHas[bucket.Bucket]), name, true) && bktSub[bucket.Bucket] == sto(old(bktSub[bucket.Bucket]), name, result.Bucket) && forallStr(s, !sel(bktHas[result.Bucket], s))
 //@   ensures[a-bucket-or-an-error] result != nil && result.ErrorHolderImpl != nil && (result.Err == nil ==> result.Bucket != nil)
 //@   ensures[the-nested-bucket] bucket.Err == nil && result.Err == nil ==> result.Bucket == bktSub[bucket.Bucket][name] && bktHas[bucket.Bucket][name]
+//@   ensures[existing-or-fresh] bucket.Err == nil && result.Err == nil ==> (old(bktHas[bucket.Bucket][name]) && old(bktSub[bucket.Bucket][name]) != 0 && result.Bucket == old(bktSub[bucket.Bucket][name])) || fresh(result.Bucket)
 //@   ensures[other-keys-kept] forallStr(k, k != name ==> sel(bktHas[bucket.Bucket], k) == sel(old(bktHas[bucket.Bucket]), k) && sel(bktSub[bucket.Bucket], k) == sel(old(bktSub[bucket.Bucket]), k))
 //@   ensures[failed-atomically] bucket.Err == nil && result.Err != nil ==> bktHas[bucket.Bucket] == old(bktHas[bucket.Bucket]) && bktSub[bucket.Bucket] == old(bktSub[bucket.Bucket])
 // sxBase: the set index's base bucket; sxMember(base, v, row): row is listed under value v
 //@ define sxBase(index, ctx) = pathB(ctxTx[ctx.Ctx], arr(index.indexPath), len(index.indexPath))
-//@ define sxMember(base, v, row) = sel(bktHas[base], v) && sel(bktSub[base], v) != 0 && sel(bktHas[sel(bktSub[base], v)], prepend(TypeString, row))
+//@ define sxMember(base, v, row) = sel(bktHas[base], v) && sel(bktSub[base], v) != 0 && sel(bktHas[sel(bktSub[base], v)], prepend(TypeString, row)) && sel(bktSub[sel(bktSub[base], v)], prepend(TypeString, row)) == 0
 //@ func (*setIndex).getIndexBucket
 //@   props C03
 //@   nosafety
@@ -85,6 +87,7 @@ package boltz
 //@   ensures[a-bucket-or-an-error] result != nil && result.ErrorHolderImpl != nil
 //@   ensures[other-values-kept] forallStr(k, k != str(key) ==> sel(bktHas[pathB(tx, arr(index.indexPath), len(index.indexPath))], k) == sel(old(bktHas[pathB(tx, arr(index.indexPath), len(index.indexPath))]), k) && sel(bktSub[pathB(tx, arr(index.indexPath), len(index.indexPath))], k) == sel(old(bktSub[pathB(tx, arr(index.indexPath), len(index.indexPath))]), k))
 //@   ensures[existing-bucket-kept] old(sel(bktHas[pathB(tx, arr(index.indexPath), len(index.indexPath))], str(key))) && old(sel(bktSub[pathB(tx, arr(index.indexPath), len(index.indexPath))], str(key))) != 0 ==> sel(bktSub[pathB(tx, arr(index.indexPath), len(index.indexPath))], str(key)) == old(sel(bktSub[pathB(tx, arr(index.indexPath), len(index.indexPath))], str(key)))
+//@   ensures[tree-kept] old(sxTree(pathB(tx, arr(index.indexPath), len(index.indexPath)))) ==> sxTree(pathB(tx, arr(index.indexPath), len(index.indexPath)))
 //@ func (*setIndex).deleteIndexKey
 //@   props C03 C07
 //@   errflow
@@ -92,6 +95,7 @@ package boltz
 //@   modifies bktHas[pathB(tx, arr(index.indexPath), len(index.indexPath))], bktSub[pathB(tx, arr(index.indexPath), len(index.indexPath))]
 //@   ensures[key-deleted] result == nil && pathB(tx, arr(index.indexPath), len(index.indexPath)) != 0 ==> !sel(bktHas[pathB(tx, arr(index.indexPath), len(index.indexPath))], str(key))
 //@   ensures[other-values-kept] forallStr(k, k != str(key) ==> sel(bktHas[pathB(tx, arr(index.indexPath), len(index.indexPath))], k) == sel(old(bktHas[pathB(tx, arr(index.indexPath), len(index.indexPath))]), k) && sel(bktSub[pathB(tx, arr(index.indexPath), len(index.indexPath))], k) == sel(old(bktSub[pathB(tx, arr(index.indexPath), len(index.indexPath))]), k))
+//@   ensures[tree-kept] old(sxTree(pathB(tx, arr(index.indexPath), len(index.indexPath)))) ==> sxTree(pathB(tx, arr(index.indexPath), len(index.indexPath)))
 //@ func (*TypedBucket).DeleteListEntry
 //@   props C03
 //@   assume bucket.ErrorHolderImpl != nil && bucket.Bucket != nil
@@ -118,13 +122,14 @@ package boltz
 //@   props C03
 //@   nosafety
 //@   assume[index-bucket-initialised] sxBase(index, ctx) != 0
+//@   assume[buckets-form-a-tree] sxTree(sxBase(index, ctx))
 //@   modifies *
 //@   ensures[pending-error-does-nothing] old(holderFailed[ctx.ErrHolder]) ==> bktHas == old(bktHas) && bktSub == old(bktSub)
 //@   lensures[unchanged-values-do-nothing] !changed ==> bktHas == old(bktHas) && bktSub == old(bktSub) && bktVal == old(bktVal)
 //@   lensures[every-new-value-lists-the-row] changed && !holderFailed[ctx.ErrHolder] ==> forall(j, 0 <= j && j < len(newValues) ==> sxMember(sxBase(index, ctx), str(newValues[j].Value), str(ctx.RowId)))
 //@   invariant 1: bktHas == old(bktHas) && bktSub == old(bktSub) && bktVal == old(bktVal) && !holderFailed[ctx.ErrHolder]
-//@   invariant 2: true
-//@   invariant 3: !holderFailed[ctx.ErrHolder] ==> forall(j, 0 <= j && j <= rangeindex ==> sxMember(sxBase(index, ctx), str(newValues[j].Value), str(ctx.RowId)))
+//@   invariant 2: sxTree(sxBase(index, ctx))
+//@   invariant 3: sxTree(sxBase(index, ctx)) && (!holderFailed[ctx.ErrHolder] ==> forall(j, 0 <= j && j <= rangeindex ==> sxMember(sxBase(index, ctx), str(newValues[j].Value), str(ctx.RowId))))
 //@   invariant 4: !holderFailed[ctx.ErrHolder] ==> forall(j, 0 <= j && j < len(newValues) ==> sxMember(sxBase(index, ctx), str(newValues[j].Value), str(ctx.RowId)))
 //@ functype SetChangeListener(ctx, rowId, old, new, holder)
 //@   modifies holderFailed[holder]
